@@ -241,7 +241,6 @@ theorem other_run (nc : NodeCfg) (ops : List HOp) (h : HWorld) (n : String) :
     rw [ih, other_step]
 
 
-namespace EphVerif.ChunkStore
 open EphVerif.StoreSpec (Op Params W last)
 
 /-- The abstract store along a history with restarts: the chunks of an instance die with it. -/
